@@ -62,6 +62,11 @@ pub enum Depth {
     MinMax(usize, usize),
     /// `DepthBehavior::bounded(min, max)`; scenarios where this returns `None` are not generated.
     Bounded(Option<usize>, Option<usize>),
+    /// `DepthBehavior::bounded_at_depth_variance(min, max, glob.depth())`: the window is relative
+    /// to the smallest depth the walker's own glob can match at, which the generator read from the
+    /// public query and recorded here as the third field (so the documented window is explicit
+    /// data of the scenario). Unrooted glob walks only.
+    AtVariance(Option<usize>, Option<usize>, usize),
 }
 
 impl Depth {
@@ -76,6 +81,8 @@ impl Depth {
             Depth::Min(n) => Depth::Min(s(n)),
             Depth::MinMax(p, q) => Depth::MinMax(s(p), s(q)),
             Depth::Bounded(a, b) => Depth::Bounded(a.map(s), b.map(|n| n.saturating_add(shift))),
+            // (never drawn for walks with a shift)
+            Depth::AtVariance(a, b, l) => Depth::AtVariance(a, b, l),
         }
     }
 
@@ -87,6 +94,7 @@ impl Depth {
             Depth::Min(n) => (n, None),
             Depth::MinMax(p, q) => (p.min(q), Some(p.max(q))),
             Depth::Bounded(min, max) => (min.unwrap_or(0), max),
+            Depth::AtVariance(min, max, lower) => (min.map_or(0, |m| m + lower), max.map(|m| m + lower)),
         }
     }
 }
